@@ -5,7 +5,7 @@
 cd "$(dirname "$0")"
 for d in seeded/${1:-*}/; do
   id=$(basename "$d")
-  checks=$(python3 -c "import json,sys; print(' '.join(c for c in json.load(open('$d/meta.json')).get('caught_by', []) if c.startswith('C')))")
+  checks=$(python3 -c "import json,sys; import re; print(' '.join(dict.fromkeys(m for c in json.load(open('$d/meta.json')).get('caught_by', []) for m in re.findall(r'C[0-9][0-9]', c) if not c.startswith('('))))")
   [ -z "$checks" ] && { echo "$id skipped (no check named: $(python3 -c "import json; print(json.load(open('$d/meta.json')).get('caught_by'))"))"; continue; }
   ./seedtest.sh "$d/patch.diff" $checks 2>&1 | grep " rc=" | while read -r line; do
     c=${line%% *}; rc=$(echo "$line" | sed -n 's/.* rc=\([0-9]*\) .*/\1/p')
